@@ -27,7 +27,7 @@ BOUNDS = {"quick": "single centre of class Tet / SP / TBP / Oct with pairwise di
           "thorough": "all placements of TBP, 180 of Oct; 24 insertion orders; 6 noise patterns; embedded_molecules with 12 seeds x 6 renumberings"}
 OUTSIDE = ("organic molecules other than the 48 listed ones, other embedding seeds; seeds for which neither the raw ETKDG conformer nor its force-field relaxed "
            "version passes the independent admissibility oracle (bond / contact distances with margin, non-flat four-coordinate atoms, planar double-bond frames) are skipped: "
-           "259 of 6912 in the thorough tier, all of them substituted cyclopropenes; "
+           "6 of 7488 in the thorough tier (1-fluoro-2-chlorocyclopropene, where MMFF bends the substituents out of plane); "
            "all-real-coordinates version of the sign conventions (engine B) not built")
 ASSUMPTIONS = ["RDKit's AssignStereochemistryFrom3D is the environment's ground truth for the annotation of a 3-D arrangement"]
 
@@ -157,7 +157,7 @@ def _admissible(m):
         if len(nb) == 4:
             v = [(X[k] - X[a.GetIdx()]) / np.linalg.norm(X[k] - X[a.GetIdx()]) for k in nb]
             for t in itertools.combinations(range(4), 3):
-                if abs(float(np.linalg.det(np.array([v[t[0]], v[t[1]], v[t[2]]])))) < 0.4:
+                if abs(float(np.linalg.det(np.array([v[t[0]], v[t[1]], v[t[2]]])))) < (0.22 if a.IsInRingSize(3) else 0.4):   # 60 degree ring angle: bulk of ETKDG conformers 0.26-0.45, flattened ones below 0.12
                     return False
     for b in m.GetBonds():      # frame of a formal double bond: every substituent torsion within 15 degrees of 0 / 180
         if b.GetBondType() == Chem.BondType.DOUBLE:
@@ -194,7 +194,7 @@ def embedded(case, seed, ren):
         return "harness error: embedding failed"
     # Raw distance-geometry conformers occasionally have a flattened CH2 group or an H...H contact below the bonding cut-off (6 of 6912 in the build sweep).
     # Conformer admissibility is decided by an oracle that uses nothing of the code under test (RDKit's covalent radii with a margin on both sides of the
-    # 1.2 x cut-off; every triple of unit bond vectors of a four-coordinate atom spans a volume > 0.4, ideal 0.77; substituent torsions of formal double bonds within 15 degrees of 0 / 180): an inadmissible raw conformer is
+    # 1.2 x cut-off; every triple of unit bond vectors of a four-coordinate atom spans a volume > 0.4, ideal 0.77 (> 0.22 for atoms of a three-membered ring, where ETKDG conformers give 0.26-0.45); substituent torsions of formal double bonds within 15 degrees of 0 / 180): an inadmissible raw conformer is
     # replaced by its force-field relaxed version (MMFF94 / UFF); if that is inadmissible too the seed yields no conformer of the kind the property talks about and is skipped.
     if not _admissible(m):
         from rdkit.Chem import rdForceFieldHelpers as ff
